@@ -68,7 +68,9 @@ func SegNearExif() Seg { // starts like the Exif prefix but is one byte off
 func SegNearXMP() Seg {
 	return Seg{Marker: 0xE1, Payload: []byte("http://ns.adobe.com/xap/1.0/ <x:xmpmeta/>"), Kind: "near-xmp"}
 }
-func SegCOM() Seg { return Seg{Marker: 0xFE, Payload: []byte("a comment \xff\xd8 with markers \xff\xd9 inside"), Kind: "com"} }
+func SegCOM() Seg {
+	return Seg{Marker: 0xFE, Payload: []byte("a comment \xff\xd8 with markers \xff\xd9 inside"), Kind: "com"}
+}
 func SegDRI() Seg { return Seg{Marker: 0xDD, Payload: []byte{0x00, 0x10}, Kind: "dri"} }
 func SegSOF(marker byte) Seg {
 	return Seg{Marker: marker, Payload: []byte{8, 0x0f, 0xa0, 0x17, 0x70, 3, 1, 0x22, 0, 2, 0x11, 1, 3, 0x11, 1}, Kind: "sof"}
